@@ -528,4 +528,4 @@ MANIFEST = {
     'design_ref': 'DESIGN.md 3/C01',
 }
 MANIFEST['note'] += (' Also decided here (necessary conditions shared between properties or added after the independent '
-                     'change rounds, DESIGN.md 8.7): DH secret / public value widths (from C04), successor construction, writers of self.dh and the owner of the INVALID_KE retry.')
+                     'change rounds, DESIGN.md 8.7): DH secret / public value widths (from C04), successor construction, writers of self.dh and the owner of the INVALID_KE retry. Rounds 7-8: the selector protocol is the same whichever selector is local (F17); the pieces of the key material however they are cut (unpack or slices).')
